@@ -260,7 +260,7 @@ def _job(job) -> List[Dict[str, Any]]:
 def closed_form_job(job) -> List[Dict[str, Any]]:
     """The same comparison under another rule id (used by other checks as the exact small-game counterpart of a structural rule)."""
     idx, tier, rule = job
-    out = game._cached(_job, (idx, tier), Program().digest())
+    out = game.budgeted(_job, (idx, tier), Program().digest())
     return [dict(d, rule=rule) for d in out]
 
 
